@@ -307,3 +307,44 @@ Qed.
 Lemma outer_rcancels_live : forall g es s i n, orun (oinit g) es = Some s -> In (i, n) (rcs s) ->
   exists r, nth_error (recs s) n = Some r /\ r_idx r = i /\ r_done r = false.
 Proof. intros g es s i n Hr. destruct (kinv_run g es s Hr) as [_ K]. apply (k_ent s K). Qed.
+
+(* ------------------------------------------------------------------------------------- *)
+(* REGISTRATIONS COME ONLY WITH A GRANT.  For ANY state and event: an entry of rcancels that  *)
+(* is new after the step was made by Run's registration step for a reader request, and the    *)
+(* same step posts the grant (PGrant of that very record) into the requesting thread's        *)
+(* response cell.  No other event adds an entry; in particular the three ways an RLock        *)
+(* reports an error leave rcancels and the WaitGroup untouched (C13_outer_error_holds_nothing). *)
+
+Lemma rcancel_rcs_subset s n y p : In p (rcs (rcancel s n y)) -> In p (rcs s).
+Proof.
+  unfold rcancel. destruct (nth_error (recs s) n) as [r|]; auto. destruct (r_done r); auto.
+  cbn. intro H. apply del_idx_in in H. tauto.
+Qed.
+
+Lemma clear_at_rcs s n : rcs (clear_at s n) = rcs s.
+Proof. unfold clear_at. destruct (nth_error (recs s) n); reflexivity. Qed.
+
+Lemma outer_entry_only_with_grant : forall s e s' p,
+  ostep s e = Some s' -> In p (rcs s') -> ~ In p (rcs s) ->
+  e = RunRegR /\ exists t c, runpc s = RunReg (HR t c) /\ snd p = length (recs s) /\
+                             fst p = rcx s /\ resps s' t = Some (PGrant (snd p)) /\
+                             wg s' = wg s + 1.
+Proof.
+  intros s e s' p H Hin Hnot.
+  destruct e; cbn in H;
+    repeat match type of H with
+           | match ?x with _ => _ end = Some _ => destruct x eqn:?; try discriminate
+           | (if ?x then _ else _) = Some _ => destruct x eqn:?; try discriminate
+           end;
+    try (inversion H; subst s'; clear H; cbn in Hin; contradiction).
+  - inversion H; subst s'. unfold shut_lock in Hin. destruct (ch_send (shut s) t) as [c' ok]; destruct ok;
+      cbn in Hin; contradiction.
+  - inversion H; subst s'. unfold shut_lock in Hin. destruct (ch_send (shut s) t) as [c' ok]; destruct ok;
+      cbn in Hin; contradiction.
+  - (* ORRelease *) inversion H; subst s'; clear H. cbn in Hin. apply rcancel_rcs_subset in Hin. contradiction.
+  - (* RunRegR *) inversion H; subst s'; clear H. cbn in Hin. destruct Hin as [Heq|Hin].
+    + subst p. split; auto. exists t, c. cbn. rewrite upd_same. repeat split; auto.
+    + apply del_idx_in in Hin. tauto.
+  - (* OGrace *) inversion H; subst s'; clear H. apply rcancel_rcs_subset in Hin.
+    rewrite clear_at_rcs in Hin. contradiction.
+Qed.
